@@ -503,6 +503,19 @@ func (c *SpecCtx) callBuiltin(e *Expr) SV {
 		u8 := leafTag(Leaf{K: LInt, B: types.Typ[types.Uint8]})
 		arr = Select(readThrough(c.st.Mem, x.L[0], u8, 0), x.L[0])
 		return mathInt(App("bebytes", SInt, arr, x.L[1], x.L[2]))
+	case "glen", "gbyte", "garr": // ghost byte buffer of a writer / hasher / *bytes.Buffer
+		x := c.eval(e.Args[0])
+		if len(x.L) == 0 {
+			c.fail(e, "%s(): not a writer value", e.Name)
+		}
+		arr := Select(c.st.Ghost, x.L[0])
+		switch e.Name {
+		case "glen":
+			return mathInt(Select(arr, Int(-1)))
+		case "gbyte":
+			return mathInt(Select(arr, c.evalInt(e.Args[1])))
+		}
+		return SV{Arr: true, L: []*Term{arr}}
 	case "bigval": // the mathematical value of a big.Int / Number (value or pointer)
 		x := c.eval(e.Args[0])
 		var obj, off *Term
